@@ -25,13 +25,26 @@ RULE = ("names: every sequence of 1..4 (thorough: 1..5) segments over {'..','.',
         "'templates' and 'data/inner') via loader.get_source and (for found names and a sample of the "
         "others) Environment.get_template, while an audit hook records every open(); the search "
         "directories hold a 3-level tree built from the same fragments and every enclosing directory "
-        "holds equally named sentinel files. compositions: random ChoiceLoader/PrefixLoader/DictLoader "
+        "holds equally named sentinel files. hostile names (same loader configurations, get_source and "
+        "get_template, same audit monitor): names the operating system refuses or that designate "
+        "something other than a regular file -- a piece with a NUL character, a piece of 256 bytes "
+        "(ASCII and 2-byte UTF-8; 255 bytes as the legal control), a path whose pieces are legal but whose "
+        "total length exceeds PATH_MAX, a lone surrogate (not encodable as a file name), a dangling "
+        "symlink, a symlink pointing at itself, a unix socket, a directory, a path running through a "
+        "regular file -- each alone, below an existing directory, above an existing file name and with "
+        "'.', '', leading and trailing '/'; the answer must be TemplateNotFound (any other exception is "
+        "a violation) unless a LATER search directory holds a regular file under that name (sp2 does for "
+        "the symlink / socket / directory names and has a directory where sp1 has a file), which must then "
+        "be returned. compositions: random ChoiceLoader/PrefixLoader/DictLoader "
         "(and FileSystemLoader leaves) trees of depth<=3, all names of <=2 and a fifth of those of 3 segments over 6 fragments (+ ':' / '.' delimiter variants), "
         "get_source and get_template compared with a 10-line resolution model; leaves are DictLoader, "
         "FunctionLoader (load function answering with a str or a (source, filename, uptodate) tuple, "
         "None for a missing name) and FileSystemLoader, and about one template in six of a dict/function "
         "leaf as well as four files of the search directories are EMPTY (a loader that holds the empty "
-        "source has the name). dynamic compositions: "
+        "source has the name); 20 hostile names (NUL, over-long piece / path, lone surrogate, the "
+        "special directory entries) are in the pool: dict / function leaves hold them in 40% of the "
+        "cases, FileSystemLoader leaves (15% of the nodes at depth<=2) must answer them with "
+        "TemplateNotFound so that a later loader gets its turn. dynamic compositions: "
         "per shard 40 (thorough 1200) random ChoiceLoader/PrefixLoader trees of depth<=3 over DictLoader "
         "and FunctionLoader leaves (the harness keeps the mapping) and FileSystemLoader leaves on private "
         "directories, templates set to the empty source in about a quarter of the add/change steps; a "
@@ -44,12 +57,17 @@ RULE = ("names: every sequence of 1..4 (thorough: 1..5) segments over {'..','.',
         "(name, loader configuration) pairs (names of <=4 segments) + distinct compositions + distinct "
         "dynamic histories")
 LEVEL_TEXT = ("held for every enumerated name on every loader configuration (POSIX path rules only) and on "
-              "every generated composition; says nothing about symlinks inside the search path, zip "
+              "every generated composition; says nothing about symlinks that point out of the search path, zip "
               "packages or Windows separators")
 ASSUMPTIONS = [
     "POSIX: os.sep='/', os.altsep=None, so backslash / drive-letter pieces are ordinary file names here; "
     "the Windows-only branches of the separator check are not exercised",
-    "containment is lexical (normpath); no symlinks are planted inside the search directories",
+    "containment is lexical (normpath); the only symlinks planted inside the search directories are a "
+    "dangling one and one pointing at itself (neither leads out of the directory)",
+    "hostile names: a loader location 'has' a name iff the name designates a regular file there (mapping "
+    "key for dict / function loaders); FIFOs, devices and permission-denied files are not planted "
+    "(opening a FIFO blocks, the harness may run as root); hostile names are not used in the dynamic "
+    "compositions",
     "PackageLoader is exercised for a regular directory package only (no zip, no namespace package)",
     "opens made by the import machinery (importlib frames on the stack) are not attributed to loaders",
     "a FunctionLoader leaf has a name iff its load function returns something other than None (the "
@@ -74,7 +92,16 @@ FLOORS = {
                            "compose_notfound": 48000, "dyn_compositions": 160,
                            "dyn_steps": 1400, "dyn_lookups": 17000, "dyn_found": 12000,
                            "dyn_moved_to_other_loader": 240, "dyn_name_appeared": 390,
-                           "dyn_name_vanished": 200, "dyn_steps_on_filesystem_leaf": 360}},
+                           "dyn_name_vanished": 200, "dyn_steps_on_filesystem_leaf": 360,
+                           "hostile_names": 100, "hostile_lookups": 1000,
+                           "hostile_nul-character": 20, "hostile_over-long-segment": 13,
+                           "hostile_over-long-path": 6, "hostile_symlink-loop": 6,
+                           "hostile_socket": 6, "hostile_unencodable-surrogate": 13,
+                           "special_entries_planted": 150,
+                           "hostile_name_found_in_later_search_directory": 40,
+                           "compose_hostile_lookups": 9600,
+                           "compose_hostile_lookups_with_filesystem_leaf": 3500,
+                           "compose_hostile_found_with_filesystem_leaf": 450}},
     "thorough": {"evaluations": 2800000, "distinct": 110000,
                  "counters": {"names": 270000, "open_events": 88000, "opens_inside": 88000,
                               "get_source_found": 58000, "rejected_parent_reference": 490000,
@@ -88,7 +115,16 @@ FLOORS = {
                               "dyn_compositions": 4800, "dyn_steps": 42000, "dyn_lookups": 500000,
                               "dyn_found": 360000, "dyn_moved_to_other_loader": 7000,
                               "dyn_name_appeared": 11000, "dyn_name_vanished": 6000,
-                              "dyn_steps_on_filesystem_leaf": 10000}},
+                              "dyn_steps_on_filesystem_leaf": 10000,
+                              "hostile_names": 100, "hostile_lookups": 1000,
+                              "hostile_nul-character": 20, "hostile_over-long-segment": 13,
+                              "hostile_over-long-path": 6, "hostile_symlink-loop": 6,
+                              "hostile_socket": 6, "hostile_unencodable-surrogate": 13,
+                              "special_entries_planted": 150,
+                              "hostile_name_found_in_later_search_directory": 40,
+                              "compose_hostile_lookups": 240000,
+                              "compose_hostile_lookups_with_filesystem_leaf": 90000,
+                              "compose_hostile_found_with_filesystem_leaf": 12000}},
 }
 
 FRAGS = ["..", ".", "", "a", "b.txt", "a\\b", "C:", "\\\\x", "é", "..a", "a..", " "]
@@ -191,6 +227,37 @@ class Sandbox:
                   os.path.join(self.sp2, "a", "b.txt"), os.path.join(self.sp2, "x.html")):
             if not os.path.exists(p):
                 self._write(p, "")
+        self.plant_special()
+
+    def plant_special(self):
+        """Directory entries that are there but are no readable regular file: a
+        dangling symlink, a symlink pointing at itself, a unix socket (all three
+        stay inside the directory), a directory named like a template.  The
+        second search directory has regular files under the same names, and a
+        directory where the first one has a file."""
+        import socket
+
+        self.special_planted = []
+        for base in (self.sp1, self.pk1):
+            for rel in ("", "a"):
+                d = os.path.join(base, rel)
+                os.symlink("no-such-target", os.path.join(d, "dangling.lnk"))
+                os.symlink("loop.lnk", os.path.join(d, "loop.lnk"))
+                self.special_planted += ["dangling.lnk", "loop.lnk"]
+                try:
+                    sk = socket.socket(socket.AF_UNIX)
+                    try:
+                        sk.bind(os.path.join(d, "sock"))
+                        self.special_planted.append("sock")
+                    finally:
+                        sk.close()
+                except OSError:
+                    pass
+            os.makedirs(os.path.join(base, "dirfile"))
+            self._write(os.path.join(base, "thru"), f"IN:{os.path.basename(base)}:thru")
+        for n in ("dangling.lnk", "loop.lnk", "sock", "dirfile", "a/sock", "a/loop.lnk"):
+            self._write(os.path.join(self.sp2, *n.split("/")), f"IN:sp2:{n}")
+        self._write(os.path.join(self.sp2, "thru", "part.txt"), "IN:sp2:thru/part.txt")
 
     def _write(self, p, content, sentinel=False):
         os.makedirs(os.path.dirname(p), exist_ok=True)
@@ -263,6 +330,35 @@ def all_names(sb, maxseg=4):
                 yield n, name
 
 
+# Names the operating system refuses or that designate something other than a
+# regular file.  No loader location "has" such a name (unless a later search
+# directory / loader really holds a template under it), so the answer is
+# TemplateNotFound -- never another exception -- and later locations are asked.
+LONG_SEG = "n" * 256                       # one byte over NAME_MAX
+LONG_SEG_UTF8 = "\xe9" * 128                # 128 characters, 256 bytes
+LONG_PATH = "/".join(["e" * 200] * 25)     # every piece fine, the whole over PATH_MAX
+HOSTILE_FRAGS = [
+    ("nul-character", "x\0y"), ("nul-character", "\0"), ("nul-character", "b.txt\0"),
+    ("over-long-segment", LONG_SEG), ("over-long-segment", LONG_SEG_UTF8),
+    ("longest-legal-segment", "n" * 255),
+    ("over-long-path", LONG_PATH),
+    ("unencodable-surrogate", "\ud800"), ("unencodable-surrogate", "a\udfffb"),
+    ("dangling-symlink", "dangling.lnk"), ("symlink-loop", "loop.lnk"), ("socket", "sock"),
+    ("directory", "dirfile"), ("through-a-file", "thru/part.txt"), ("file-or-directory", "thru"),
+]
+
+
+def hostile_names():
+    """[(class, name)]: every hostile fragment alone, below an existing
+    directory, above an existing file name, with '.', '' and trailing '/'."""
+    out = []
+    for cls, h in HOSTILE_FRAGS:
+        for pat in ("{}", "a/{}", "{}/b.txt", "a/{}/b.txt", "./{}", "{}/", "a//{}", "/{}",
+                    "b.txt/{}"):
+            out.append((cls, pat.format(h)))
+    return out
+
+
 def natural(pieces, roots):
     """Documentation: '/' separates path pieces below the search directory and
     directories are searched in order."""
@@ -276,11 +372,13 @@ def natural(pieces, roots):
     return None
 
 
-def check_name(ctx, sb, mon, env, label, loader, roots, name, do_template):
+def check_name(ctx, sb, mon, env, label, loader, roots, name, do_template, name_class=None):
     """Returns True if the loader found the name."""
     from jinja2 import TemplateNotFound
 
     case = {"part": "names", "loader": label, "name": name.replace(sb.root, "$ROOT")}
+    if name_class:
+        case["name_class"] = name_class
     pieces = name.split("/")
     bad_piece = any(p == os.path.pardir or os.sep in p or (os.path.altsep and os.path.altsep in p)
                     for p in pieces)
@@ -301,8 +399,11 @@ def check_name(ctx, sb, mon, env, label, loader, roots, name, do_template):
                 ctx.violation(f"{kind}:{api}:open-outside-search-path",
                               f"{label}.{api}({name!r}) opened {p!r}, search roots {roots}", case)
         if e is not None and not isinstance(e, TemplateNotFound):
-            ctx.violation(f"{kind}:{api}:raises:{type(e).__name__}",
-                          f"{label}.{api}({name!r}) raised {type(e).__name__}: {e}", case)
+            shown = name if len(name) < 80 else name[:30] + "..." + name[-30:]
+            ctx.violation(f"{kind}:{api}:raises:{type(e).__name__}"
+                          + (f":{name_class}" if name_class else ""),
+                          f"{label}.{api}({shown!r}) raised {type(e).__name__}: {str(e)[:200]} "
+                          f"(a name the location does not have must give TemplateNotFound)", case)
             continue
         if e is not None:
             if bad_piece:
@@ -378,6 +479,29 @@ def part_names(ctx, sb, quick):
     ctx.exhaustive = True
 
 
+def part_hostile(ctx, sb, quick):
+    """Names the OS refuses / non-regular directory entries on every loader
+    configuration, through get_source and get_template."""
+    from jinja2 import Environment
+
+    mon = OpenMonitor.get()
+    cfgs = loader_configs(sb, quick)
+    envs = {label: Environment(loader=ld, cache_size=0) for label, ld, _ in cfgs}
+    ctx.count("special_entries_planted", len(sb.special_planted))
+    for i, (cls, name) in enumerate(hostile_names()):
+        if not ctx.mine(i):
+            continue
+        ctx.count("hostile_names")
+        ctx.count("hostile_" + cls)
+        for label, loader, roots in cfgs:
+            found = check_name(ctx, sb, mon, envs[label], label, loader, roots, name, True, cls)
+            ctx.count("hostile_lookups", 2)
+            if found:
+                ctx.count("hostile_name_found_in_later_search_directory")
+            ctx.dist(("hostile", cls, name if len(name) < 60 else name[:20] + "~" + str(len(name)),
+                      label))
+
+
 # --------------------------------------------------------- compositions
 C_SEGS = ["a", "b", "p", "q", "x.html", "b.txt"]
 
@@ -392,13 +516,21 @@ def pool_names():
                 out.append("/".join(segs))
     out += [n.replace("/", ":", 1) for n in out[6:42:2]] + \
            [n.replace("/", ".", 1) for n in out[7:42:3]]
-    return out
+    return out + HOSTILE_POOL
+
+
+# hostile names of the composition pool (see HOSTILE_FRAGS): a DictLoader /
+# FunctionLoader leaf can hold any of them, a FileSystemLoader leaf none except
+# those its directory has as regular files
+HOSTILE_POOL = ["x\0y", "a/x\0y", "a:x\0y", "p/q/\0", LONG_SEG, "p/" + LONG_SEG, "b." + LONG_SEG,
+                LONG_PATH, "a/" + LONG_PATH, "\ud800", "q/\ud800", "sock", "a/sock", "loop.lnk",
+                "a/loop.lnk", "dangling.lnk", "b/dangling.lnk", "thru/part.txt", "dirfile", "thru"]
 
 
 def gen_spec(rng, depth, names, counter, sb=None):
     kinds = ["dict", "dict", "func"] if depth <= 1 else \
         ["dict", "func", "choice", "choice", "choice", "prefix", "prefix", "prefix"]
-    if sb is not None and depth <= 2 and rng.random() < 0.1:
+    if sb is not None and depth <= 2 and rng.random() < 0.15:
         kinds = ["fs"]
     kind = rng.choice(kinds)
     counter[0] += 1
@@ -407,7 +539,11 @@ def gen_spec(rng, depth, names, counter, sb=None):
         k = rng.choice([0, 2, 5, 12, 25, 40])
         chosen = sorted(rng.sample(names[:42], min(k, 30)) + rng.sample(names[42:], k // 4))
         # a template may be EMPTY: the loader still has it
-        mp = {n: ("" if rng.random() < 0.15 else f"{kind[0].upper()}{ident}:{n}") for n in chosen}
+        if rng.random() < 0.4:
+            # names only a mapping can hold (the OS would refuse them as file names)
+            chosen = sorted(set(chosen) | set(rng.sample(HOSTILE_POOL, rng.randint(1, 4))))
+        mp = {n: ("" if rng.random() < 0.15 else f"{kind[0].upper()}{ident}:{n}"[:60])
+              for n in chosen}
         if kind == "func":
             # how the load function answers: 'str' | 'tuple' (source, filename, uptodate)
             return ["func", mp, rng.choice(["str", "str", "tuple"])]
@@ -523,12 +659,20 @@ def check_composition(ctx, sb, spec, names, case):
     env = Environment(loader=ld, cache_size=0)
     ctx.count("compositions")
     ctx.count("compose_function_loader_leaves", json.dumps(spec).count('["func"'))
+    has_fs = '["fs"' in json.dumps(spec)
+    hostile = set(HOSTILE_POOL)
     for name in names:
         want = resolve(spec, name, sb)
         for api in ("get_source", "get_template"):
             got, exc = lookup(ld, env, name, api)
             ctx.ev()
             ctx.count("compose_lookups")
+            if name in hostile:
+                ctx.count("compose_hostile_lookups")
+                if has_fs:
+                    ctx.count("compose_hostile_lookups_with_filesystem_leaf")
+                    if want is not None:
+                        ctx.count("compose_hostile_found_with_filesystem_leaf")
             if want is None:
                 ctx.count("compose_notfound")
             else:
@@ -546,9 +690,10 @@ def check_composition(ctx, sb, spec, names, case):
                 what = "not-found-though-a-loader-has-it"
             else:
                 what = "not-the-first-loader-that-has-it"
+            shown = name if len(name) < 80 else name[:30] + "..." + name[-30:]
             ctx.violation(f"compose:{who}:{api}:{what}",
-                          f"{api}({name!r}) on {spec} gave {got!r} ({exc!r}); the first loader "
-                          f"that has the name gives {want!r}", dict(case, name=name))
+                          f"{api}({shown!r}) on {str(spec)[:1500]} gave {got!r} ({exc!r}); the first "
+                          f"loader that has the name gives {want!r}", dict(case, name=name))
             return
     ctx.dist(("compose", case["seed"], spec))
 
@@ -861,6 +1006,7 @@ def run(ctx):
     ses = Session(f"s{ctx.shard}")
     try:
         part_dynamic(ctx, ses.sb, quick)
+        part_hostile(ctx, ses.sb, quick)
         part_names(ctx, ses.sb, quick)
         part_compose(ctx, ses.sb, quick)
     finally:
@@ -878,7 +1024,8 @@ def replay(ctx, case):
             for label, loader, roots in loader_configs(sb, False):
                 if label == case["loader"]:
                     check_name(ctx, sb, mon, Environment(loader=loader, cache_size=0), label, loader,
-                               roots, case["name"].replace("$ROOT", sb.root), True)
+                               roots, case["name"].replace("$ROOT", sb.root), True,
+                               case.get("name_class"))
         elif case["part"] == "dynamic":
             run_dynamic(ctx, sb, case["spec"], case["ops"], case["probes"], case)
         else:
